@@ -4,8 +4,8 @@ from .histcommon import *
 ID = 'C05'
 LEVEL = 'model_checking'
 BUDGET = {'quick': 290, 'thorough': 3300}
-BOUNDS = {'quick': 'all histories of depth 2 over a 56-operation alphabet from 5 start states (fresh, declared, populated, loaded, loaded with fewer labels than points), views checked after every successful call; frame payloads symbolic; rates from {0,50,100}/{0,100,200,300}; plus a kernel with FREE rates: POINT:RATE 100 (thorough: any float in [1,2000]), ANALOG:RATE set twice to any float in [0,20000] with 1..3 declared channels, header analog view vs ANALOG:USED decided by z3 (FP theory for the ratio)',
-          'thorough': 'all histories of depth 3 (5 x 56^3 = 630k histories; capped by the wall budget, the cut is reported)'}
+BOUNDS = {'quick': 'all histories of depth 2 over a 56-operation alphabet from 6 start states (fresh, declared, populated, loaded from a file that starts at frame 10, loaded with fewer labels than points, loaded with an empty ANALOG group), views checked after every successful call; frame payloads symbolic; rates from {0,50,100}/{0,100,200,300}; plus a kernel with FREE rates: POINT:RATE 100 (thorough: any float in [1,2000]), ANALOG:RATE set twice to any float in [0,20000] with 1..3 declared channels, header analog view vs ANALOG:USED decided by z3 (FP theory for the ratio)',
+          'thorough': 'all histories of depth 3 (6 x 56^3 = 630k histories; capped by the wall budget, the cut is reported)'}
 OUTSIDE = 'histories deeper than the bound; frames whose sub-frame count deviates from the header (undocumented deviation, outside the property\'s quantifier); rates other than the enumerated ones'
 ASSUMPTIONS = ['a frame is "filled" when it holds at least one point or one sub-frame (gap frames created by an indexed store beyond the end are not)']
 RULE = 'one evaluation = one history (path); non-trivial = the history has at least one successful mutating call with symbolic payload'
@@ -23,6 +23,7 @@ def views(M, prefix, detail):
     def pv(g, n):
         q = P.get((g, n)); return q['values'] if q else None
     used = A['used']; frames = pv('POINT', 'FRAMES')[0]
+    if A['aused'] is None: A = dict(A, aused=0)      # an ANALOG group without parameters (what Optotrak writes) declares no channel
     o('points/header-vs-used', neq(h['nb3dPoints'], used), 'header point count %s, POINT:USED %s' % (h['nb3dPoints'], used))
     o('frames/header-vs-frames', neq(h['nbFrames'], frames), 'header frame count %s, POINT:FRAMES %s' % (h['nbFrames'], frames))
     o('frames/frames-vs-data', neq(frames, M['nbFrames']), 'POINT:FRAMES %s, stored frames %s' % (frames, M['nbFrames']))
